@@ -1,8 +1,13 @@
 (** Model of pkg/registers serialisation: registry.New, ValueBytes /
     ValueFromBytes (legacy JSON format), valueToHex / valueFromHex (YAML
-    format), Registers.Sort.  JSON/YAML/base64 libraries are transport: a
+    format), Registers.Sort.  The JSON/YAML libraries are transport: a
     collection is a list of (ID, raw value); what the libraries carry is the
-    byte string / hexadecimal string the model computes. *)
+    byte string / hexadecimal string the model computes.
+    Second half of the file: the textual forms of one YAML value (valueUnpack /
+    valueUnpackString with its case-sensitive prefix switch, valueFromHex,
+    valueFromBase64 over a concrete std base64 decoder), the yaml.v3 resolution of
+    the plain scalars in question, whole documents (YAML mapping, legacy JSON list)
+    and Unmarshal into a destination that already holds registers. *)
 From Coq Require Import NArith List String Ascii Bool.
 Import ListNotations.
 Open Scope N_scope.
@@ -100,6 +105,7 @@ Inductive value :=
 | VNil
 | VUint (bits : N) (n : N)     (* any Go integer type *)
 | VBytes (b : list N)          (* []byte *)
+| VReg (r : string * N)        (* a registers.Register (what ValueFromBytes hands to New) *)
 | VOther.                      (* string, bool, other slices, ... *)
 
 Definition new (id : string) (v : value) : res reg :=
@@ -112,6 +118,16 @@ Definition new (id : string) (v : value) : res reg :=
       | VBytes b => if String.eqb id key_id
                     then (if Nat.eqb (List.length b) 32 then ROk (id, le_value b) else RErr)
                     else RErr
+      | VReg r =>
+          (* reflect ConvertibleTo: integer kinds convert among each other (truncating),
+             the 32-byte array only to itself *)
+          match lookup (fst r) registry with
+          | None => RErr
+          | Some _ =>
+              if String.eqb id key_id
+              then (if String.eqb (fst r) key_id then ROk (id, snd r) else RErr)
+              else (if String.eqb (fst r) key_id then RErr else ROk (id, snd r mod 2 ^ r_bits i))
+          end
       | VOther => RErr
       end
   end.
@@ -242,3 +258,249 @@ Fixpoint dedup_last (l : list reg) : list reg :=
 Definition yaml_roundtrip (regs : list reg) : res (list reg) :=
   bind (mapM (fun r => bind (yaml_value r) (fun h => yaml_unvalue (fst r) h)) (dedup_last regs))
        (fun l => ROk (sort_regs l)).
+
+(** * Textual forms of one YAML value: marshal_value.go valueUnpack / valueUnpackString
+
+    What the YAML decoder hands over for one mapping value: an integer (a plain scalar that
+    yaml.v3 resolved as !!int: Go int or uint64), a string (quoted scalar, or a plain scalar
+    that resolves to !!str), or something else (float, bool, sequence, ...). *)
+Inductive yval := YInt (n : N) | YStr (s : string) | YOther.
+
+(** encoding/base64 StdEncoding (padded, non-strict: unused trailing bits are ignored;
+    line breaks inside the text are outside the modelled alphabet) *)
+Definition b64_char (d : N) : ascii :=
+  ascii_of_N (if d <? 26 then 65 + d else if d <? 52 then 71 + d else if d <? 62 then d - 4
+              else if d =? 62 then 43 else 47).
+Definition b64_val (c : ascii) : option N :=
+  let n := N_of_ascii c in
+  if (65 <=? n) && (n <=? 90) then Some (n - 65)
+  else if (97 <=? n) && (n <=? 122) then Some (n - 71)
+  else if (48 <=? n) && (n <=? 57) then Some (n + 4)
+  else if n =? 43 then Some 62
+  else if n =? 47 then Some 63
+  else None.
+Definition b64_pad : ascii := "="%char.
+
+Fixpoint b64_enc (b : list N) : string :=
+  match b with
+  | [] => EmptyString
+  | [x] => String (b64_char (x / 4)) (String (b64_char ((x mod 4) * 16))
+           (String b64_pad (String b64_pad EmptyString)))
+  | [x; y] => String (b64_char (x / 4)) (String (b64_char ((x mod 4) * 16 + y / 16))
+              (String (b64_char ((y mod 16) * 4)) (String b64_pad EmptyString)))
+  | x :: y :: z :: t =>
+      String (b64_char (x / 4)) (String (b64_char ((x mod 4) * 16 + y / 16))
+      (String (b64_char ((y mod 16) * 4 + z / 64)) (String (b64_char (z mod 64)) (b64_enc t))))
+  end.
+
+Fixpoint b64_dec (s : string) : option (list N) :=
+  match s with
+  | EmptyString => Some []
+  | String a (String b (String c (String d r))) =>
+      match b64_val a, b64_val b with
+      | Some p, Some q =>
+          match r with
+          | EmptyString =>      (* the last quantum may be padded *)
+              if Ascii.eqb c b64_pad then
+                if Ascii.eqb d b64_pad then Some [p * 4 + q / 16] else None
+              else match b64_val c with
+                   | None => None
+                   | Some u =>
+                       if Ascii.eqb d b64_pad then Some [p * 4 + q / 16; (q mod 16) * 16 + u / 4]
+                       else match b64_val d with
+                            | None => None
+                            | Some v => Some [p * 4 + q / 16; (q mod 16) * 16 + u / 4; (u mod 4) * 64 + v]
+                            end
+                   end
+          | _ =>
+              match b64_val c, b64_val d, b64_dec r with
+              | Some u, Some v, Some t =>
+                  Some ((p * 4 + q / 16) :: ((q mod 16) * 16 + u / 4) :: ((u mod 4) * 64 + v) :: t)
+              | _, _, _ => None
+              end
+          end
+      | _, _ => None
+      end
+  | _ => None
+  end.
+
+(** strings.HasPrefix(s, p) and s[len(p):] *)
+Fixpoint drop_prefix (p s : string) : option string :=
+  match p with
+  | EmptyString => Some s
+  | String a p' => match s with
+                   | String b s' => if Ascii.eqb a b then drop_prefix p' s' else None
+                   | EmptyString => None
+                   end
+  end.
+
+(** [valueFromHex]: a sample of the register decides between ParseUint(h, 16, width of Value())
+    and hex.DecodeString *)
+Definition value_from_hex (id : string) (h : string) : res value :=
+  match lookup id registry with
+  | None => RErr
+  | Some i =>
+      if String.eqb id key_id then
+        match hex_to_bytes h with Some b => ROk (VBytes b) | None => RErr end
+      else
+        match parse_hex (8 * N.of_nat (r_ser i)) h with
+        | Some v => ROk (VUint (8 * N.of_nat (r_ser i)) v)
+        | None => RErr
+        end
+  end.
+
+(** [valueFromBase64] (obsolete form): std base64 of the ValueBytes rendering *)
+Definition value_from_base64 (id : string) (t : string) : res value :=
+  match b64_dec t with
+  | Some b => bind (value_from_bytes id b) (fun r => ROk (VReg r))
+  | None => RErr
+  end.
+
+Open Scope string_scope.
+(** [valueUnpackString]: a case-SENSITIVE prefix switch; nothing else of the string is touched *)
+Definition value_unpack_string (id : string) (s : string) : res value :=
+  match drop_prefix "0x" s with
+  | Some h => value_from_hex id h
+  | None => match drop_prefix "base64:" s with
+            | Some t => value_from_base64 id t
+            | None => RErr
+            end
+  end.
+Close Scope string_scope.
+
+Definition value_unpack (id : string) (v : yval) : res value :=
+  match v with
+  | YInt n => ROk (VUint 64 n)
+  | YStr s => value_unpack_string id s
+  | YOther => RErr
+  end.
+
+(** one mapping entry of a YAML document: valueUnpack, then registers.New *)
+Definition yaml_entry (id : string) (v : yval) : res reg := bind (value_unpack id v) (new id).
+
+(** yaml.v3 scalar resolution when decoding into interface{}, for the scalars the harness
+    writes ([None] = outside the modelled class, the harness sends no such case):
+    a quoted scalar is the string itself; a plain scalar is
+    - "0x"/"0X" + alphanumerics: an integer if the rest is a non-empty hexadecimal number
+      below 2^64 (strconv.ParseInt/ParseUint base 0), otherwise the string;
+    - decimal digits without a leading zero: an integer below 2^64, a float from there on;
+    - "base64:" + non-empty text over the base64 alphabet and '=': the string. *)
+Definition is_digit (c : ascii) : bool := let n := N_of_ascii c in (48 <=? n) && (n <=? 57).
+Definition is_alnum (c : ascii) : bool :=
+  let n := N_of_ascii c in
+  ((48 <=? n) && (n <=? 57)) || ((65 <=? n) && (n <=? 90)) || ((97 <=? n) && (n <=? 122)).
+Definition is_b64ish (c : ascii) : bool :=
+  match b64_val c with Some _ => true | None => Ascii.eqb c b64_pad end.
+Fixpoint all_chars (f : ascii -> bool) (s : string) : bool :=
+  match s with EmptyString => true | String c r => f c && all_chars f r end.
+Fixpoint of_dec_aux (s : string) (acc : N) : N :=
+  match s with
+  | EmptyString => acc
+  | String c r => of_dec_aux r (10 * acc + (N_of_ascii c - 48))
+  end.
+
+(** the text after a "0x" / "0X" prefix *)
+Definition hex_prefixed (s : string) : option string :=
+  match s with
+  | String c (String x r) =>
+      if Ascii.eqb c "0"%char && (Ascii.eqb x "x"%char || Ascii.eqb x "X"%char) then Some r else None
+  | _ => None
+  end.
+Definition is_empty (s : string) : bool := match s with EmptyString => true | _ => false end.
+
+Definition yaml_plain (s : string) : option yval :=
+  match hex_prefixed s with
+  | Some r =>
+      if all_chars is_alnum r then
+        match of_hex_aux r 0 with
+        | Some v => Some (if is_empty r then YStr s else if v <? 2 ^ 64 then YInt v else YStr s)
+        | None => Some (YStr s)
+        end
+      else None
+  | None =>
+      match s with
+      | EmptyString => None
+      | String c r =>
+          if is_digit c then
+            if all_chars is_digit r && (negb (Ascii.eqb c "0"%char) || is_empty r) then
+              let v := of_dec_aux s 0 in Some (if v <? 2 ^ 64 then YInt v else YOther)
+            else None
+          else
+            match drop_prefix "base64:"%string s with
+            | Some t => if negb (is_empty t) && all_chars is_b64ish t then Some (YStr s) else None
+            | None => None
+            end
+      end
+  end.
+
+Definition yaml_scalar (quoted : bool) (s : string) : option yval :=
+  if quoted then Some (YStr s) else yaml_plain s.
+
+(** a YAML document: mapping ID -> scalar.  A repeated key is a decoding error; the result
+    is sorted (Registers.Sort). *)
+Fixpoint has_dup (l : list string) : bool :=
+  match l with
+  | [] => false
+  | a :: t => existsb (String.eqb a) t || has_dup t
+  end.
+Definition yaml_doc (entries : list (string * yval)) : res (list reg) :=
+  if has_dup (map fst entries) then RErr
+  else bind (mapM (fun e => yaml_entry (fst e) (snd e)) entries) (fun l => ROk (sort_regs l)).
+
+(** what MarshalYAML writes: the plain scalar "0x" + hexadecimal *)
+Definition yaml_marshal (regs : list reg) : res (list (string * (bool * string))) :=
+  mapM (fun r => bind (yaml_value r) (fun h => ROk (fst r, (false, String "0" (String "x" h)))))
+       (dedup_last regs).
+
+(** legacy JSON document: [{id, value bytes}] in the order given *)
+Definition json_marshal (regs : list reg) : res (list (string * list N)) :=
+  mapM (fun r => bind (value_bytes r) (fun b => ROk (fst r, b))) regs.
+Definition json_doc (entries : list (string * list N)) : res (list reg) :=
+  mapM (fun e => bind (value_from_bytes (fst e) (snd e)) (fun r => new (fst e) (VReg r))) entries.
+
+(** * Unmarshalling into a destination that may already hold registers
+
+    UnmarshalJSON / UnmarshalYAML assign the parsed collection to the destination: what it
+    held before does not matter, and a failed parse leaves it untouched. *)
+Inductive doc :=
+| DJson (entries : list (string * list N))
+| DYaml (entries : list (string * (bool * string))).
+
+Fixpoint resolve_entries (e : list (string * (bool * string))) : option (list (string * yval)) :=
+  match e with
+  | [] => Some []
+  | (id, (q, s)) :: t =>
+      match yaml_scalar q s, resolve_entries t with
+      | Some v, Some t' => Some ((id, v) :: t')
+      | _, _ => None
+      end
+  end.
+
+Definition parse_doc (d : doc) : option (res (list reg)) :=
+  match d with
+  | DJson e => Some (json_doc e)
+  | DYaml e => match resolve_entries e with Some e' => Some (yaml_doc e') | None => None end
+  end.
+
+(** destination after the call, and whether the call succeeded *)
+Definition assign (dst : list reg) (p : res (list reg)) : list reg * bool :=
+  match p with ROk l => (l, true) | _ => (dst, false) end.
+
+Definition unmarshal (dst : list reg) (d : doc) : option (list reg * bool) :=
+  match parse_doc d with Some p => Some (assign dst p) | None => None end.
+
+(** several documents unmarshalled one after another into the same variable: the state of
+    the variable and the success flag after each call *)
+Fixpoint unmarshal_seq (dst : list reg) (docs : list doc) : option (list (list reg * bool)) :=
+  match docs with
+  | [] => Some []
+  | d :: t =>
+      match unmarshal dst d with
+      | Some (dst', ok) =>
+          match unmarshal_seq dst' t with
+          | Some rest => Some ((dst', ok) :: rest)
+          | None => None
+          end
+      | None => None
+      end
+  end.
